@@ -70,3 +70,53 @@ def expected(graph, k):
 
 def reads(graph):
     return {"S%d" % (i + 1): set(ops) for i, ops in enumerate(graph)}
+
+
+# ---------------------------------------------------------------------------------------------------
+# clause-reference graphs: results of other statements (scalars) referenced from INSIDE a clause
+# ---------------------------------------------------------------------------------------------------
+
+def clause_graphs(n_ds=2, n_sc=2):
+    """every graph of n_sc scalar statements (sc_j := sum of a subset of earlier scalars + j) and n_ds dataset
+    statements (S_i := <base>[calc Me_1 := Me_1 + <non-empty subset of scalars>], base = I1 or an earlier dataset)."""
+    scs = ["sc%d" % j for j in range(1, n_sc + 1)]
+
+    def sc_opts(j):
+        earlier = scs[:j]
+        return [c for r in range(0, len(earlier) + 1) for c in itertools.combinations(earlier, r)]
+
+    def ds_opts(i):
+        bases = ["I1"] + ["S%d" % s for s in range(1, i + 1)]
+        subsets = [c for r in range(1, len(scs) + 1) for c in itertools.combinations(scs, r)]
+        return [(b, c) for b in bases for c in subsets]
+    for sc_reads in itertools.product(*[sc_opts(j) for j in range(n_sc)]):
+        for ds_defs in itertools.product(*[ds_opts(i) for i in range(n_ds)]):
+            yield (tuple(sc_reads), tuple(ds_defs))
+
+
+def clause_statements(graph):
+    """-> list of (name, text-after-assignment, reads)"""
+    sc_reads, ds_defs = graph
+    out = []
+    for j, reads in enumerate(sc_reads):
+        out.append(("sc%d" % (j + 1), " + ".join(list(reads) + [str(j + 1)]), set(reads)))
+    for i, (base, scs) in enumerate(ds_defs):
+        out.append(("S%d" % (i + 1), "%s[calc Me_1 := Me_1 + %s]" % (base, " + ".join(scs)), {base} | set(scs)))
+    return out
+
+
+def clause_render(graph, mask, order=None):
+    st = clause_statements(graph)
+    order = list(order) if order is not None else list(range(len(st)))
+    return "\n".join("%s %s %s;" % (st[i][0], "<-" if mask[i] else ":=", st[i][1]) for i in order)
+
+
+def clause_expected(graph):
+    sc_reads, ds_defs = graph
+    val = {"I1": input_values(1)}
+    for j, reads in enumerate(sc_reads):
+        val["sc%d" % (j + 1)] = sum(val[r] for r in reads) + (j + 1)
+    for i, (base, scs) in enumerate(ds_defs):
+        add = sum(val[s] for s in scs)
+        val["S%d" % (i + 1)] = {r: val[base][r] + add for r in (1, 2)}
+    return val
